@@ -174,7 +174,7 @@ Qed.
 Lemma classify_cases res dm c :
   match classify res dm c with
   | AInvalid => max_length_valid (rc_pl c) = false
-  | ANotHeld => max_length_valid (rc_pl c) = true /\ contains_roa_address res (pl_pfx (rc_pl c)) = false
+  | ANotHeld => max_length_valid (rc_pl c) = true /\ is_held_by res (pl_pfx (rc_pl c)) = false
   | ADup => acceptable res c = true /\ rget dm (rc_pl c) = Some (rc_comment c)
   | AComment => acceptable res c = true /\ exists cm, rget dm (rc_pl c) = Some cm /\ cm <> rc_comment c
   | ANew => acceptable res c = true /\ rget dm (rc_pl c) = None
@@ -182,7 +182,7 @@ Lemma classify_cases res dm c :
 Proof.
   unfold classify, acceptable.
   destruct (max_length_valid (rc_pl c)); simpl; auto.
-  destruct (contains_roa_address res (pl_pfx (rc_pl c))); simpl; auto.
+  destruct (is_held_by res (pl_pfx (rc_pl c))); simpl; auto.
   destruct (rget dm (rc_pl c)) as [cm|]; auto.
   destruct (comment_eqb cm (rc_comment c)) eqn:E.
   - apply comment_eqb_spec in E; subst; auto.
@@ -190,7 +190,7 @@ Proof.
 Qed.
 
 Definition notheld_b (res : resources) (c : roa_conf) : bool :=
-  max_length_valid (rc_pl c) && negb (contains_roa_address res (pl_pfx (rc_pl c))).
+  max_length_valid (rc_pl c) && negb (is_held_by res (pl_pfx (rc_pl c))).
 Definition invalid_b (c : roa_conf) : bool := negb (max_length_valid (rc_pl c)).
 
 Lemma additions_errs res dm : forall l pre dmj,
@@ -406,7 +406,7 @@ Qed.
 (** The right-hand side of the iff, as a proposition. *)
 Definition refused_cond (res : resources) (m : routes) (d : delta) : Prop :=
   (exists c, In c (d_added d) /\ max_length_valid (rc_pl c) = false)
-  \/ (exists c, In c (d_added d) /\ contains_roa_address res (pl_pfx (rc_pl c)) = false)
+  \/ (exists c, In c (d_added d) /\ is_held_by res (pl_pfx (rc_pl c)) = false)
   \/ (exists p, In p (d_removed d) /\ rget m p = None)
   \/ ~ NoDup (d_removed d)
   \/ (exists l1 c l2, d_added d = l1 ++ c :: l2 /\ is_dup_at res (remove_all m (d_removed d)) l1 c = true).
@@ -454,7 +454,7 @@ Proof.
   - intros [(c & Hc & Hv)|[(c & Hc & Hv)|[[Hu|Hu]|Hd]]].
     + left. exists c. split; auto. destruct (max_length_valid (rc_pl c)); [discriminate|auto].
     + right; left. exists c. split; auto. apply andb_true_iff in Hv as [_ Hv].
-      destruct (contains_roa_address res (pl_pfx (rc_pl c))); [discriminate|auto].
+      destruct (is_held_by res (pl_pfx (rc_pl c))); [discriminate|auto].
     + right; right; left; auto.
     + right; right; right; left; auto.
     + right; right; right; right; auto.
@@ -587,57 +587,42 @@ Proof.
   cbn [map existsb]. rewrite up4_covers by auto. rewrite IH. reflexivity.
 Qed.
 
-(** Cover by a block of the other family (the check does not look at the family). *)
+(** The check is exactly "a block of the prefix's own family covers the prefix". *)
+Theorem check_is_held res p :
+  p_len p <= alen (p_fam p) -> is_held_by res p = holds_prefix res p.
+Proof.
+  intros Hl. unfold is_held_by, holds_prefix, hi128, lo128, plo, phi, shift_of.
+  destruct p as [f a l]; simpl in *. destruct f; simpl in *.
+  - change (128 - 32) with 96. rewrite (pow_shift_split l Hl).
+    rewrite covered_up4; auto.
+    assert (0 < 2 ^ (32 - l)) by (apply N.neq_0_lt_0, N.pow_nonzero; lia). lia.
+  - rewrite ?N.mul_1_r. reflexivity.
+Qed.
+
+(** ** The originally pinned tree (finding F05a, repaired in 2496aeb4) *)
+
+(** Cover by a block of the other family. *)
 Definition cross_family_cover (res : resources) (p : prefix) : bool :=
   match p_fam p with
   | V4 => covered (r_v6 res) (lo128 p) (hi128 p)
   | V6 => covered (map up4 (r_v4 res)) (lo128 p) (hi128 p)
   end.
 
-Theorem contains_roa_address_decomposed res p :
-  p_len p <= alen (p_fam p) ->
-  contains_roa_address res p = holds_prefix res p || cross_family_cover res p.
+Theorem contains_roa_address_pinned_decomposed res p :
+  contains_roa_address_pinned res p = is_held_by res p || cross_family_cover res p.
 Proof.
-  intros Hl. unfold contains_roa_address, holds_prefix, cross_family_cover, hi128, lo128, plo, phi, shift_of.
-  destruct p as [f a l]; simpl in *. destruct f; simpl in *.
-  - change (128 - 32) with 96. rewrite (pow_shift_split l Hl).
-    rewrite covered_up4; auto.
-    assert (0 < 2 ^ (32 - l)) by (apply N.neq_0_lt_0, N.pow_nonzero; lia). lia.
-  - rewrite ?N.mul_1_r. apply orb_comm.
+  unfold contains_roa_address_pinned, is_held_by, cross_family_cover.
+  destruct (p_fam p); [reflexivity|apply orb_comm].
 Qed.
 
-Corollary held_prefix_passes_check res p :
-  p_len p <= alen (p_fam p) -> holds_prefix res p = true -> contains_roa_address res p = true.
-Proof. intros Hl H. rewrite contains_roa_address_decomposed, H; auto. Qed.
-
-(** The statement one would like: the check accepts exactly the prefixes held. *)
-Definition check_is_held_full : Prop :=
-  forall res p, wf_prefix p = true -> contains_roa_address res p = holds_prefix res p.
-
-(** Witness: the CA holds IPv4 10.0.0.0/8 only; the IPv6 prefix a00::/8 passes. *)
+(** Witness: the CA holds IPv4 10.0.0.0/8 only; the IPv6 prefix a00::/8 passed the old check. *)
 Definition cf_res : resources := mkRes [] [(167772160, 184549375)] [].
 Definition cf_pfx : prefix := mkP V6 (10 * 2 ^ 120) 8.
 
-Theorem check_is_held_refuted : ~ check_is_held_full.
-Proof.
-  intros H. specialize (H cf_res cf_pfx eq_refl). vm_compute in H. discriminate.
-Qed.
-
-(** Strongest true restriction: equality whenever no block of the other family covers the range. *)
-Theorem check_is_held_except_cross_family res p :
-  p_len p <= alen (p_fam p) -> cross_family_cover res p = false ->
-  contains_roa_address res p = holds_prefix res p.
-Proof. intros Hl H. rewrite contains_roa_address_decomposed, H, orb_false_r; auto. Qed.
-
-(** In particular for holdings of a single family. *)
-Corollary check_is_held_single_family res p :
-  p_len p <= alen (p_fam p) ->
-  (match p_fam p with V4 => r_v6 res | V6 => r_v4 res end) = [] ->
-  contains_roa_address res p = holds_prefix res p.
-Proof.
-  intros Hl H. apply check_is_held_except_cross_family; auto.
-  unfold cross_family_cover. destruct (p_fam p); rewrite H; reflexivity.
-Qed.
+Example check_is_held_pinned_refuted :
+  wf_prefix cf_pfx = true /\ contains_roa_address_pinned cf_res cf_pfx = true
+  /\ holds_prefix cf_res cf_pfx = false /\ is_held_by cf_res cf_pfx = false.
+Proof. vm_compute. auto. Qed.
 
 (** "One block covers the range" is "every address of the range is held" when
     the blocks are merged (pairwise neither overlapping nor adjacent), which
@@ -694,6 +679,6 @@ Proof. vm_compute. reflexivity. Qed.
 Example covered_iff_all_addresses_nonvacuous : separated (r_v4 ex_res) /\ covered (r_v4 ex_res) 167772160 167772415 = true.
 Proof. split; [|reflexivity]. intros r r' [<-|[]] [<-|[]]. left; reflexivity. Qed.
 
-Example check_is_held_single_family_nonvacuous :
-  contains_roa_address (mkRes [] [(167772160, 184549375)] []) (mkP V4 167772160 8) = true.
-Proof. vm_compute. reflexivity. Qed.
+Example check_is_held_nonvacuous :
+  is_held_by ex_res (mkP V4 167772160 8) = true /\ is_held_by ex_res (mkP V6 (10 * 2 ^ 120) 8) = false.
+Proof. vm_compute. auto. Qed.
